@@ -2,6 +2,7 @@
 
 use crate::engine::Ctx;
 
+pub mod c02;
 pub mod c03;
 pub mod c04;
 pub mod c05;
@@ -17,10 +18,11 @@ pub mod c14;
 pub mod c15;
 pub mod c16;
 pub mod c17;
+pub mod c19;
 pub mod c20;
 pub mod fmt;
 
-pub const ALL: &[&str] = &["C03", "C04", "C05", "C06", "C07", "C08", "C09", "C10", "C11", "C12", "C13", "C14", "C15", "C16", "C17", "C20"];
+pub const ALL: &[&str] = &["C02", "C03", "C04", "C05", "C06", "C07", "C08", "C09", "C10", "C11", "C12", "C13", "C14", "C15", "C16", "C17", "C19", "C20"];
 
 pub fn exists(p: &str) -> bool {
     ALL.contains(&p)
@@ -28,6 +30,7 @@ pub fn exists(p: &str) -> bool {
 
 pub fn run(p: &str, ctx: &mut Ctx) {
     match p {
+        "C02" => c02::run(ctx),
         "C03" => c03::run(ctx),
         "C04" => c04::run(ctx),
         "C05" => c05::run(ctx),
@@ -43,6 +46,7 @@ pub fn run(p: &str, ctx: &mut Ctx) {
         "C15" => c15::run(ctx),
         "C16" => c16::run(ctx),
         "C17" => c17::run(ctx),
+        "C19" => c19::run(ctx),
         "C20" => c20::run(ctx),
         _ => panic!("unknown property {}", p),
     }
@@ -51,6 +55,7 @@ pub fn run(p: &str, ctx: &mut Ctx) {
 /// (non-triviality rule, assumptions)
 pub fn meta(p: &str) -> (String, Vec<String>) {
     let (r, a): (&str, &[&str]) = match p {
+        "C02" => (c02::RULE, c02::ASSUMPTIONS),
         "C03" => (c03::RULE, c03::ASSUMPTIONS),
         "C04" => (c04::RULE, c04::ASSUMPTIONS),
         "C05" => (c05::RULE, c05::ASSUMPTIONS),
@@ -66,6 +71,7 @@ pub fn meta(p: &str) -> (String, Vec<String>) {
         "C15" => (c15::RULE, c15::ASSUMPTIONS),
         "C16" => (c16::RULE, c16::ASSUMPTIONS),
         "C17" => (c17::RULE, c17::ASSUMPTIONS),
+        "C19" => (c19::RULE, c19::ASSUMPTIONS),
         "C20" => (c20::RULE, c20::ASSUMPTIONS),
         _ => ("", &[]),
     };
